@@ -441,4 +441,88 @@ theorem go_template_genFull (r : Root) (f : FileDef) (t : TypeDecl) (i : Nat) (g
   · exact go_render_string_eq r i t.name _ hv (sortedValues_u64 f t.name)
   · exact go_render_isValid_eq r i t.name _ hv
 
+/-! ### reading the model's components back from the pieces written
+
+The printers above are one-to-one on what the model looks at: the rows of the table, the rows of the
+`String` switch (label and returned literal), the branch of `IsValid`. -/
+
+/-- the middle piece of every group of three -/
+def readRows3 : List String → List String
+  | _ :: n :: _ :: rest => n :: readRows3 rest
+  | _ => []
+
+/-- second and fourth piece of every group of five -/
+def readRows5 : List String → List (String × String)
+  | _ :: a :: _ :: b :: _ :: rest => (a, b) :: readRows5 rest
+  | _ => []
+
+theorem readRows3_flat (a b z : String) (names : List String) :
+    readRows3 (names.flatMap (fun n => [a, n, b]) ++ [z]) = names := by
+  induction names with
+  | nil => rfl
+  | cons n ns ih => simp [readRows3, ih]
+
+theorem readRows5_flat (a b c z1 z2 z3 : String) (rows : List Value) :
+    readRows5 (rows.flatMap (fun v => [a, v.name, b, v.name, c]) ++ [z1, z2, z3]) = rows.map (fun v => (v.name, v.name)) := by
+  induction rows with
+  | nil => rfl
+  | cons n ns ih => simp [readRows5, ih]
+
+/-- the rows of `_<T>Values` as written = `StringValues()` of the model = the names of its table -/
+theorem read_table (T : String) (g : GenOut) :
+    readRows3 ((tableText T g.stringValues).drop 5) = g.table.map (·.name) := by
+  simp only [tableText, List.append_assoc, List.cons_append, List.nil_append, List.drop_succ_cons, List.drop_zero]
+  exact readRows3_flat _ _ _ _
+
+theorem read_stringValues (T : String) (g : GenOut) :
+    readRows3 ((stringValuesText T g.stringValues).drop 3) = g.stringValues := by
+  simp only [stringValuesText, List.append_assoc, List.cons_append, List.nil_append, List.drop_succ_cons, List.drop_zero]
+  exact readRows3_flat _ _ _ _
+
+/-- the `String` switch as written: one case per row of the model's table, labelled with the row's
+constant and returning the row's name - what `GenOut.string` searches -/
+theorem read_string (g : GenOut) :
+    readRows5 ((stringText g.tname g.table).drop 3) = g.table.map (fun v => (v.name, v.name)) := by
+  simp only [stringText, List.append_assoc, List.cons_append, List.nil_append, List.drop_succ_cons, List.drop_zero]
+  exact readRows5_flat _ _ _ _ _ _ _
+
+/-- which branch of `IsValid` was written -/
+def readIsValidBinary (pieces : List String) : Bool := pieces[3]? == some "\n\t_, ok := slices.BinarySearch(_"
+
+theorem read_isValid (g : GenOut) :
+    readIsValidBinary (isValidText g.tname (decide (g.nAll > bsThreshold))) = decide (g.nAll > bsThreshold) := by
+  unfold readIsValidBinary isValidText
+  by_cases h : g.nAll > bsThreshold <;> simp [h]
+
+/-! ### non-vacuity: a definition with a deprecated duplicate and a parsable trait, executed -/
+
+private def exA : Value := ⟨"A", 0, false, true, 0, [.str "x"]⟩
+private def exB : Value := ⟨"B", 0, false, false, 0, []⟩
+private def exC : Value := ⟨"C", 1, false, false, 1, [.str "y"]⟩
+private def exVals : List Value := [exA, exB, exC]
+
+private def exTraits : List TraitDesc :=
+  [⟨"Label", "string", .ustr, true, [⟨exA, ⟨"string", .str "x"⟩⟩, ⟨exC, ⟨"string", .str "y"⟩⟩]⟩]
+
+private def exRoot : Root := ⟨{ caseInsensitive := true, parsable := ["Label"] }, ["E"], [exVals], [exTraits]⟩
+
+private theorem exVals_u64 : ∀ v ∈ exVals, U64 v := by
+  intro v hv
+  simp [exVals] at hv
+  rcases hv with rfl | rfl | rfl <;> (unfold U64 two64; decide)
+
+/-- the table holds `B` (the live name of 0) and `C`; the case of `A` carries its trait constant -/
+example : renderSec exRoot 0 "E" secTable = some (tableText "E" ["B", "C"]) := by
+  rw [go_render_values_eq exRoot 0 "E" exVals rfl exVals_u64]
+  rfl
+
+example : ∃ rest, renderSec exRoot 0 "E" secParse
+    = some (["\n\n// Parse", "E", " will attempt to parse the value of a ", "E",
+        " from either its string form\n// or any value of a trait flagged with the --parsableByTrait flag.\nfunc Parse",
+        "E", "(input any) (", "E", ", error) {\n\tswitch input {",
+        "\n\tcase \"", "A", "\"", ", ", "\"x\"", ":\n\t\treturn ", "A", ", nil",
+        "\n\tcase \"", "B", "\"", ":\n\t\treturn ", "B", ", nil"] ++ rest) := by
+  rw [go_render_parse_eq exRoot 0 "E" exVals exTraits rfl rfl]
+  exact ⟨_, rfl⟩
+
 end C04TmplTie
